@@ -3,19 +3,28 @@ package iterators
 // Range creates an Iterator that will
 // iterate numbers from a to b, including b.
 func Range(a, b int) Iterator {
-	return &ranger{pos: a - 1, end: b}
+	return &ranger{next: a, end: b}
 }
 
 type ranger struct {
-	pos int
-	end int
+	next int // next value to yield
+	end  int // last value to yield
+	done bool
 }
 
 // Next returns the next number in the Range or nil
 func (r *ranger) Next() interface{} {
-	if r.pos < r.end {
-		r.pos++
-		return r.pos
+	if r.done || r.next > r.end {
+		return nil
 	}
-	return nil
+
+	v := r.next
+	if r.next == r.end {
+		// do not step past end: it may be the largest int
+		r.done = true
+	} else {
+		r.next++
+	}
+
+	return v
 }
